@@ -616,8 +616,10 @@ def write_evidence(prop, tier, seed, pinfo, results, facts, violations, undecide
     )
     ev = dict(property_id=prop, tier=tier, seed=seed, level=level, coverage=cov, assumptions=assumptions,
               wall_s=round(wall, 2), violations=len(violations))
-    os.makedirs(os.path.join(VERIF, 'evidence'), exist_ok=True)
-    with open(os.path.join(VERIF, 'evidence', prop + '.json'), 'w') as f:
+    # evidence describes /repo; a run against another tree (KV_REPO: seeded-change tests) writes elsewhere
+    evdir = os.path.join(VERIF, 'evidence') if not os.environ.get('KV_REPO') else os.path.join(tempfile.gettempdir(), 'kv_seed_evidence')
+    os.makedirs(evdir, exist_ok=True)
+    with open(os.path.join(evdir, prop + '.json'), 'w') as f:
         json.dump(ev, f, indent=1)
 
 
